@@ -7,11 +7,12 @@
 (*   n, edges      the graph that was built                                *)
 (*   hasinit, hassvc  modules with an init function / whose init function  *)
 (*                 returns a service                                       *)
-(*   runs          calls InitModuleServices(targets...): the order in      *)
+(*   runs          calls InitModuleServices(targets...), each a tuple      *)
+(*                 <<targets, order, keys, err_at, err>>: the order in     *)
 (*                 which init functions ran (Go map iteration makes it     *)
 (*                 vary; any admissible order is fine), the keys of the    *)
-(*                 returned service map, whether an error came back,       *)
-(*                 err_at = module whose init function fails (0: none)     *)
+(*                 returned service map, the module whose init function    *)
+(*                 fails (0: none), whether an error came back (0/1)       *)
 (*   deps          DependenciesForModule(m) for every m (or empty)         *)
 (*   adds          AddDependency(a, B...) attempts on that graph (each on  *)
 (*                 a fresh manager): accepted?                             *)
@@ -31,8 +32,9 @@ vars == <<i>>
 Deps(o) == {<<e[1], e[2]>> : e \in SeqSet(o.edges)}
 Sorted(s) == \A j \in 1..(Len(s) - 1) : s[j] < s[j + 1]
 
-BadRun(tr, H, S, r) ==
-    LET T == SeqSet(r.targets)
+BadRun(tr, H, S, rr) ==
+    LET r == [targets |-> rr[1], order |-> rr[2], keys |-> rr[3], err_at |-> rr[4], err |-> rr[5] = 1]
+        T == SeqSet(r.targets)
         fails == r.err_at # 0 /\ r.err_at \in NeededT(tr, T) \cap H
         named(c, name) == IF c THEN {} ELSE {name}
     IN  named(InitOnce(r.order), "InitOnce")
